@@ -85,6 +85,8 @@ impl Block {
         &&& self.rp(0) == 0
         &&& forall|r1: int, r2: int| 0 <= r1 < r2 < self.num_restarts ==> #[trigger] self.rp(r1) < #[trigger] self.rp(r2)
         &&& forall|r: int| 0 <= r < self.num_restarts ==> self.is_off(#[trigger] self.rp(r))
+        // the builder writes a full key at every restart point
+        &&& forall|j: int| 0 <= j < self.n() && self.is_rp(#[trigger] self.off_at(j)) ==> self.ev(j).shared == 0
         &&& self.sorted_ok()
     }
     #[verifier::opaque]
@@ -227,19 +229,133 @@ impl CursorPosition {
 //@ end
 }
 
+// the position record p describes the j-th entry of block b
+spec fn pos_is(b: Block, p: CursorPosition, j: int) -> bool {
+    &&& p is Positioned && 0 <= j < b.n()
+    &&& p->offset == b.off_at(j) && p->next_offset == b.off_at(j + 1)
+    &&& p->key@ == b.key_j(j) && p->timestamp == b.ev(j).ts && val_is(p->value, b.ev(j).val)
+    &&& p->restart_idx < b.num_restarts && b.rp(p->restart_idx as int) <= b.off_at(j)
+    &&& p->restart_idx + 1 < b.num_restarts ==> b.off_at(j) < b.rp(p->restart_idx + 1)
+}
+// entry index where restart interval r ends (exclusive)
+spec fn interval_end(b: Block, r: int) -> int { if r + 1 < b.num_restarts { b.idx_of(b.rp(r + 1)) } else { b.n() } }
+// the reverse cache holds exactly the position records of one restart interval, in order
+spec fn cache_is_ok(b: Block, c: Option<RestartCache>) -> bool {
+    c is Some ==> {
+        let r = c->Some_0.restart_idx as int; let first = b.idx_of(b.rp(r));
+        &&& r < b.num_restarts
+        &&& c->Some_0.positions@.len() == interval_end(b, r) - first
+        &&& forall|i: int| 0 <= i < c->Some_0.positions@.len() ==> pos_is(b, #[trigger] c->Some_0.positions@[i], first + i)
+    }
+}
+
+// `self.reverse_cache.as_ref().is_some_and(|cache| cache.restart_idx == restart_idx)`
+#[verifier::external_body]
+fn cache_is(cache: &Option<RestartCache>, restart_idx: usize) -> (r: bool)
+    ensures r == (cache is Some && cache->Some_0.restart_idx == restart_idx),
+{ unimplemented!() }
+// ASSUMED (std iterators): `cache.as_ref().and_then(|c| c.positions.iter().rev().find(pred))` with
+// pred = "is Positioned with next_offset == target" returns the LAST cached position satisfying pred, if any
+#[verifier::external_body]
+fn find_cached(cache: &Option<RestartCache>, target: usize) -> (r: Option<&CursorPosition>)
+    ensures
+        r is Some ==> cache is Some && exists|i: int| 0 <= i < cache->Some_0.positions@.len() && *r->Some_0 == #[trigger] cache->Some_0.positions@[i]
+            && r->Some_0 is Positioned && r->Some_0->next_offset == target,
+        r is None ==> cache is None || forall|i: int| 0 <= i < cache->Some_0.positions@.len() ==>
+            !((#[trigger] cache->Some_0.positions@[i]) is Positioned && cache->Some_0.positions@[i]->next_offset == target),
+{ unimplemented!() }
+// `position.clone()` (derive(Clone))
+#[verifier::external_body]
+fn clone_position(p: &CursorPosition) -> (r: CursorPosition)
+    ensures r == *p
+{ unimplemented!() }
+// `position_key.clone()`
+#[verifier::external_body]
+fn clone_key(k: &Vec<u8>) -> (r: Vec<u8>)
+    ensures r@ == k@
+{ unimplemented!() }
+
+// the entries of one restart interval: walking from its restart point with the key chain
+proof fn lemma_interval_step(b: Block, r: int, first: int, m: int)
+    requires b.wf(), 0 <= r < b.num_restarts, first == b.idx_of(b.rp(r)), 0 <= m, first + m < b.n(),
+        r + 1 < b.num_restarts ==> b.off_at(first + m) < b.rp(r + 1),
+    ensures
+        b.rp(r) <= b.off_at(first + m),
+        entry_at(b.bytes@, b.off_at(first + m), b.bnd()) is Some,
+        b.off_at(first + m + 1) == b.ev(first + m).next,
+        b.key_j(first + m) == trunc(if m == 0 { Seq::<u8>::empty() } else { b.key_j(first + m - 1) }, b.ev(first + m).shared) + b.ev(first + m).frag,
+        first + m < interval_end(b, r),
+{
+    assert(b.is_off(b.rp(r)));
+    if m > 0 {
+        lemma_off_mono(b, first, first + m);
+        if m > 1 { lemma_off_mono(b, first, first + m - 1); }
+        lemma_step_same(b, first + m - 1, r);
+        lemma_off_mono(b, first + m - 1, first + m);
+    } else {
+        assert(b.is_rp(b.off_at(first)));
+    }
+    if r + 1 < b.num_restarts {
+        assert(b.is_off(b.rp(r + 1)));
+        let e = b.idx_of(b.rp(r + 1));
+        if e <= first + m { if e < first + m { lemma_off_mono(b, e, first + m); } }
+    }
+}
+// the interval ends where the walk reaches the limit offset
+proof fn lemma_interval_done(b: Block, r: int, first: int, m: int)
+    requires b.wf(), 0 <= r < b.num_restarts, first == b.idx_of(b.rp(r)), 0 <= m, first + m <= b.n(),
+        m > 0 ==> first + m - 1 < interval_end(b, r),
+        b.off_at(first + m) >= (if r + 1 < b.num_restarts { b.rp(r + 1) } else { b.bnd() }),
+    ensures first + m == interval_end(b, r)
+{
+    assert(b.is_off(b.rp(r)));
+    if r + 1 < b.num_restarts {
+        assert(b.is_off(b.rp(r + 1)));
+        let e = b.idx_of(b.rp(r + 1));
+        lemma_rp_mono(b, r, r + 1);
+        if first + m < e { lemma_off_mono(b, first + m, e); }
+        if m == 0 { if e < first { lemma_off_mono(b, e, first); } }
+    } else {
+        if first + m < b.n() { assert(b.off_at(first + m) < b.bnd()); }
+    }
+}
+
+// the restart interval prev() picks contains the entry before entry j (j == n for the end position)
+proof fn lemma_prev_interval(b: Block, j: int, cur_ri: int, chosen: int)
+    requires b.wf(), 0 < j <= b.n(), b.off_at(j) != 0,
+        j == b.n() ==> cur_ri == b.num_restarts,
+        j < b.n() ==> 0 <= cur_ri < b.num_restarts && b.rp(cur_ri) <= b.off_at(j) && (cur_ri + 1 < b.num_restarts ==> b.off_at(j) < b.rp(cur_ri + 1)),
+        chosen == (if cur_ri >= b.num_restarts || b.off_at(j) <= b.rp(cur_ri) { cur_ri - 1 } else { cur_ri }),
+    ensures 0 <= chosen < b.num_restarts, b.idx_of(b.rp(chosen)) <= j - 1 < interval_end(b, chosen)
+{
+    if j == b.n() {
+        assert(b.is_off(b.rp(chosen)));
+    } else if b.off_at(j) <= b.rp(cur_ri) {
+        // entry j opens interval cur_ri; cur_ri > 0 because interval 0 opens at offset 0
+        if cur_ri == 0 { assert(b.rp(0) == 0); }
+        assert(b.is_off(b.rp(cur_ri))); assert(b.is_off(b.rp(chosen)));
+        lemma_off_inj(b, b.idx_of(b.rp(cur_ri)), j);
+        lemma_rp_mono(b, chosen, cur_ri);
+        let f = b.idx_of(b.rp(chosen));
+        if f >= j { if f > j { lemma_off_mono(b, j, f); } }
+    } else {
+        assert(b.is_off(b.rp(chosen)));
+        let f = b.idx_of(b.rp(chosen));
+        if f >= j { if f > j { lemma_off_mono(b, j, f); } }
+        if chosen + 1 < b.num_restarts {
+            assert(b.is_off(b.rp(chosen + 1)));
+            let e = b.idx_of(b.rp(chosen + 1));
+            if e <= j { if e < j { lemma_off_mono(b, e, j); } }
+        }
+    }
+}
+
 impl BlockCursor {
     spec fn b(&self) -> Block { self.block }
     // the position is the j-th entry of the block
     #[verifier::opaque]
-    spec fn at(&self, j: int) -> bool {
-        let b = self.block;
-        &&& self.position is Positioned && 0 <= j < b.n()
-        &&& self.position->offset == b.off_at(j) && self.position->next_offset == b.off_at(j + 1)
-        &&& self.position->key@ == b.key_j(j) && self.position->timestamp == b.ev(j).ts && val_is(self.position->value, b.ev(j).val)
-        &&& self.position->restart_idx < b.num_restarts && b.rp(self.position->restart_idx as int) <= b.off_at(j)
-        &&& self.position->restart_idx + 1 < b.num_restarts ==> b.off_at(j) < b.rp(self.position->restart_idx + 1)
-    }
-    spec fn cache_ok(&self) -> bool { true }
+    spec fn at(&self, j: int) -> bool { pos_is(self.block, self.position, j) }
+    spec fn cache_ok(&self) -> bool { cache_is_ok(self.block, self.reverse_cache) }
     // whatever the position holds, its value range lies inside the block (so value() cannot slice out of bounds)
     spec fn pos_safe(&self) -> bool {
         self.position is Positioned && self.position->value is Some ==> self.position->value->Some_0.0 + self.position->value->Some_0.1 <= self.block.bytes@.len()
@@ -264,14 +380,7 @@ impl BlockCursor {
         requires self.at_open(j)
         ensures self.at(j)
     { reveal(BlockCursor::at); }
-    spec fn at_open(&self, j: int) -> bool {
-        let b = self.block;
-        &&& self.position is Positioned && 0 <= j < b.n()
-        &&& self.position->offset == b.off_at(j) && self.position->next_offset == b.off_at(j + 1)
-        &&& self.position->key@ == b.key_j(j) && self.position->timestamp == b.ev(j).ts && val_is(self.position->value, b.ev(j).val)
-        &&& self.position->restart_idx < b.num_restarts && b.rp(self.position->restart_idx as int) <= b.off_at(j)
-        &&& self.position->restart_idx + 1 < b.num_restarts ==> b.off_at(j) < b.rp(self.position->restart_idx + 1)
-    }
+    spec fn at_open(&self, j: int) -> bool { pos_is(self.block, self.position, j) }
 
 //@ extract sst/src/block.rs | impl BlockCursor :: fn offset
 //@ ret r
@@ -319,6 +428,56 @@ impl BlockCursor {
 //@ >>
 //@ end
 
+//@ extract sst/src/block.rs | impl BlockCursor :: fn cache_restart
+//@ ret r
+//@ rewrite-re X12 `self\s*\.reverse_cache\s*\.as_ref\(\)\s*\.is_some_and\(\|cache\| cache\.restart_idx == restart_idx\)` => `cache_is(&self.reverse_cache, restart_idx)`
+//@ rewrite X12 `key = position_key.clone();` => `key = clone_key(position_key);`
+//@ pre <<
+        old(self).block.wf(), old(self).cache_ok(), restart_idx < old(self).block.num_restarts,
+//@ >>
+//@ post <<
+        final(self).block == old(self).block, final(self).position == old(self).position,
+        r is Ok ==> final(self).cache_ok() && final(self).reverse_cache is Some && final(self).reverse_cache->Some_0.restart_idx == restart_idx,
+//@ >>
+//@ bodystart <<
+        let ghost b = self.block;
+        let ghost ri = restart_idx as int;
+        let ghost first = b.idx_of(b.rp(ri));
+        proof { assert(b.is_off(b.rp(ri))); if ri + 1 < b.num_restarts { assert(b.is_off(b.rp(ri + 1))); lemma_rp_mono(b, ri, ri + 1); } }
+//@ >>
+//@ before? `let mut key = Vec::new();` <<
+        proof { if ri + 1 < b.num_restarts { let e = b.idx_of(b.rp(ri + 1)); assert(b.off_at(e) < b.bnd()); } }
+//@ >>
+//@ loop 0 <<
+            invariant
+                self.block == b, b.wf(), ri == restart_idx, 0 <= ri < b.num_restarts, first == b.idx_of(b.rp(ri)),
+                limit == (if ri + 1 < b.num_restarts { b.rp(ri + 1) } else { b.bnd() }),
+                first + positions@.len() <= b.n(),
+                offset == b.off_at(first + positions@.len()),
+                key@ == (if positions@.len() == 0 { Seq::<u8>::empty() } else { b.key_j(first + positions@.len() - 1) }),
+                forall|i: int| 0 <= i < positions@.len() ==> pos_is(b, #[trigger] positions@[i], first + i),
+                positions@.len() > 0 ==> first + positions@.len() - 1 < interval_end(b, ri),
+                limit <= b.bnd(),
+            ensures
+                offset >= limit,
+            decreases b.n() - first - positions@.len(),
+//@ >>
+//@ before `let position = BlockCursor::extract_key(&self.block, restart_idx, offset, key)?;` <<
+            let ghost m = positions@.len() as int;
+            proof {
+                if first + m >= b.n() { assert(b.off_at(b.n()) == b.bnd()); if ri + 1 < b.num_restarts { assert(b.rp(ri + 1) < b.bnd()) by { assert(b.is_off(b.rp(ri + 1))); } } }
+                lemma_interval_step(b, ri, first, m);
+                axiom_entry(b.bytes@, b.off_at(first + m), b.bnd());
+            }
+//@ >>
+//@ before? `positions.push(position);` <<
+                    proof { assert(pos_is(b, position, first + m)); }
+//@ >>
+//@ before? `self.reverse_cache = Some(RestartCache {` <<
+        proof { lemma_interval_done(b, ri, first, positions@.len() as int); }
+//@ >>
+//@ end
+
     // position at the first entry of restart interval `restart_idx`
 //@ extract sst/src/block.rs | impl BlockCursor :: fn seek_restart
 //@ ret r
@@ -342,7 +501,7 @@ impl BlockCursor {
             assert(entry_at(b.bytes@, b.off_at(j), b.bnd()) is Some);
         }
 //@ >>
-//@ after `self.position = BlockCursor::extract_key(&self.block, restart_idx, offset, prev_key)?;` <<
+//@ after? `self.position = BlockCursor::extract_key(&self.block, restart_idx, offset, prev_key)?;` <<
         proof {
             assert(prev_key@ =~= Seq::<u8>::empty());
             assert(b.is_rp(b.off_at(j)));
@@ -471,7 +630,7 @@ impl Cursor for BlockCursor {
 //@ before `match bytes_cmp3(key, kvp.key) {` <<
             let ghost kk = kvp.key@;
 //@ >>
-//@ after#1 `right = mid - 1;` <<
+//@ after#1? `right = mid - 1;` <<
                     proof {
                         assert(lex_lt(k, kk));
                         self.lemma_probe(mid as int);
@@ -480,7 +639,7 @@ impl Cursor for BlockCursor {
                         lemma_fk_above(b, mid as int, k);
                     }
 //@ >>
-//@ after#2 `right = mid - 1;` <<
+//@ after#2? `right = mid - 1;` <<
                     proof {
                         assert(k == kk);
                         self.lemma_probe(mid as int);
@@ -490,7 +649,7 @@ impl Cursor for BlockCursor {
                         lemma_fk_above(b, mid as int, k);
                     }
 //@ >>
-//@ after `left = mid;` <<
+//@ after? `left = mid;` <<
                     proof {
                         assert(lex_lt(kk, k));
                         self.lemma_probe(mid as int);
@@ -498,7 +657,7 @@ impl Cursor for BlockCursor {
                         assert(lex_lt(b.fk(mid as int), k));
                     }
 //@ >>
-//@ before `let mut kref = self.key_ref()?;` <<
+//@ before? `let mut kref = self.key_ref()?;` <<
         proof {
             let jl = b.idx_of(b.rp(left as int));
             self.lemma_at(jl);
@@ -529,14 +688,14 @@ impl Cursor for BlockCursor {
                 let ghost p0 = self.pos();
                 proof { assert(x.key@ == ee[p0].key); assert(lex_lt(ee[p0].key, k)); }
 //@ >>
-//@ after#2 `kref = self.key_ref()?;` <<
+//@ after#2? `kref = self.key_ref()?;` <<
                 proof {
                     assert(self.pos() == p0 + 1);
                     self.lemma_cursor_laws();
                     assert(self.key_spec() == key_at(ee, self.pos()));
                 }
 //@ >>
-//@ before `Ok(())` <<
+//@ before? `Ok(())` <<
         proof {
             self.lemma_cursor_laws();
             let p = self.pos();
@@ -549,7 +708,47 @@ impl Cursor for BlockCursor {
 //@ end
 
 //@ extract sst/src/block.rs | impl Cursor for BlockCursor :: fn prev
-//@ external-body
+//@ rewrite-re X12 `(?s)self\.reverse_cache\.as_ref\(\)\.and_then\(\|cache\| \{.*?\n        \}\) \{` => `find_cached(&self.reverse_cache, target_next_offset) {`
+//@ rewrite X12 `self.position = position.clone();` => `self.position = clone_position(position);`
+//@ bodystart <<
+        let ghost b = self.block;
+        let ghost j0 = self.idx();
+        proof { if self.position is Positioned { let j = choose|j: int| self.at(j); self.lemma_at(j); } }
+//@ >>
+//@ before? `if target_next_offset == 0 {` <<
+        proof { assert(target_next_offset == b.off_at(j0)); assert(b.off_at(0) == 0); if j0 > 0 { lemma_off_mono(b, 0, j0); } }
+//@ >>
+//@ before? `self.cache_restart(restart_idx)?;` <<
+        proof { lemma_prev_interval(b, j0, current_restart_idx as int, restart_idx as int); }
+//@ >>
+//@ after `self.cache_restart(restart_idx)?;` <<
+        let ghost first = b.idx_of(b.rp(restart_idx as int));
+        let ghost cpos = self.reverse_cache->Some_0.positions@;
+        proof { assert(pos_is(b, cpos[j0 - 1 - first], j0 - 1)); }
+//@ >>
+//@ before? `self.position = clone_position(position);` <<
+            proof {
+                let i = choose|i: int| 0 <= i < cpos.len() && *position == #[trigger] cpos[i] && position is Positioned && position->next_offset == target_next_offset;
+                assert(pos_is(b, cpos[i], first + i));
+                lemma_off_inj(b, first + i + 1, j0);
+            }
+//@ >>
+//@ after? `self.position = clone_position(position);` <<
+            proof {
+                axiom_entry(b.bytes@, b.off_at(j0 - 1), b.bnd());
+                self.lemma_at_intro(j0 - 1);
+                self.lemma_at(j0 - 1);
+            }
+//@ >>
+//@ before? `self.seek_restart(restart_idx)?;` <<
+            // the cached interval always holds the entry looked for: the fall-back scan below is not reachable for a
+            // well-formed block (it is still compiled code; its loop is given the invariant `false`)
+            proof { assert(false); }
+//@ >>
+//@ loop 0 <<
+                invariant false,
+                decreases 0int,
+//@ >>
 //@ end
 
 //@ extract sst/src/block.rs | impl Cursor for BlockCursor :: fn next
@@ -559,27 +758,27 @@ impl Cursor for BlockCursor {
         let ghost ri0: int = if self.position is Positioned { self.position->restart_idx as int } else { 0 };
         proof { if self.position is Positioned { let j = choose|j: int| self.at(j); self.lemma_at(j); } }
 //@ >>
-//@ after `self.seek_restart(0)?;` <<
+//@ after? `self.seek_restart(0)?;` <<
             proof {
                 assert(b.off_at(0) == 0);
                 lemma_idx_of(b, 0);
                 self.lemma_at(0);
             }
 //@ >>
-//@ after `let offset = self.next_offset();` <<
+//@ after? `let offset = self.next_offset();` <<
         proof {
             assert(offset == b.off_at(j0 + 1));
             if offset >= b.bnd() { if j0 + 1 < b.n() { assert(b.off_at(j0 + 1) < b.bnd()); } }
             else { if j0 + 1 >= b.n() { assert(b.off_at(b.n()) == b.bnd()); } }
         }
 //@ >>
-//@ after `self.seek_restart(self.restart_idx() + 1)?;` <<
+//@ after? `self.seek_restart(self.restart_idx() + 1)?;` <<
             proof {
                 lemma_step_restart(b, j0, ri0);
                 self.lemma_at(j0 + 1);
             }
 //@ >>
-//@ after `self.position = BlockCursor::extract_key(&self.block, restart_idx, offset, prev_key)?;` <<
+//@ after? `self.position = BlockCursor::extract_key(&self.block, restart_idx, offset, prev_key)?;` <<
         proof {
             lemma_step_same(b, j0, ri0);
             lemma_off_mono(b, j0, j0 + 1);
